@@ -1,4 +1,5 @@
 import GohbaseVerif.Drive.C01
+import GohbaseVerif.Drive.C05
 import GohbaseVerif.Drive.C07
 import GohbaseVerif.Drive.C08
 import GohbaseVerif.Drive.C15
@@ -19,6 +20,7 @@ def dispatch (line : String) : String :=
   | "c01" :: rest => Drive.C01.handle rest
   | "c08" :: rest => Drive.C08.handle rest
   | "c15" :: rest => Drive.C15.handle rest
+  | "c05" :: rest => Drive.C05.handle rest
   | "c07" :: rest => Drive.C07.handle rest
   | "c10" :: rest => Drive.C10.handle rest
   | "c16" :: rest => Drive.C16.handle rest
